@@ -11,4 +11,5 @@ import (
 	_ "verif/harness/props/c12"
 	_ "verif/harness/props/c17"
 	_ "verif/harness/props/c18"
+	_ "verif/harness/props/c20"
 )
